@@ -595,6 +595,17 @@ func (cs *Contracts) parseFile(path, pkg string) error {
 			}
 			curLemma = &Lemma{Name: m[1], Pkg: pkg, Props: append([]string(nil), props...), Params: ps}
 			pend = &pending{kind: "lemma", src: m[3], line: lineNo}
+		case "promoted":
+			// promoted <T> via <field>: M1 M2 ...   every listed method of *T resolves to the embedded field's method
+			if err := flush(); err != nil {
+				return err
+			}
+			i := strings.Index(rest, ":")
+			hd := strings.Fields(rest[:max(i, 0)])
+			if i < 0 || len(hd) != 3 || hd[1] != "via" {
+				return fmt.Errorf("%s:%d: expected 'promoted T via field: methods'", path, lineNo)
+			}
+			cs.Fields = append(cs.Fields, &FieldDecl{Type: hd[0], Field: hd[2], Pkg: pkg, Kind: "promoted", Arg: strings.TrimSpace(rest[i+1:]), Props: append([]string(nil), props...)})
 		case "field":
 			if err := flush(); err != nil {
 				return err
